@@ -1092,6 +1092,23 @@ class Interp:
                 raise Unsupported("generator yields before its filter loop")
             frame.locals["__yield_result__"] = seqs.generator_filter_loop(self, node, frame, it)
             return
+        if hasattr(it, "sym_lazy_filter") and isinstance(node.target, ast.Name) and len(node.body) == 1 and isinstance(node.body[0], ast.If) \
+                and not node.body[0].orelse and node.body[0].body and isinstance(node.body[0].body[-1], ast.Break) \
+                and not any(isinstance(n_, (ast.Continue, ast.Break)) for st_ in node.body[0].body[:-1] for n_ in ast.walk(st_)):
+            # search loop `for c in elem: if cond(c): ...; break` (no other exit): the first child, in document order, satisfying cond --
+            # the same rule as `next((c for c in elem if cond(c)), None)`
+            comp = ast.comprehension(target=node.target, iter=node.iter, ifs=[node.body[0].test], is_async=0)
+            genexp = ast.GeneratorExp(elt=ast.Name(id=node.target.id, ctx=ast.Load()), generators=[comp])
+            ast.copy_location(genexp, node)
+            ast.fix_missing_locations(genexp)
+            sentinel = object()
+            first = it.sym_lazy_filter(self, genexp, comp, frame).sym_next(self, [sentinel])
+            if first is sentinel:
+                self.exec_block(node.orelse, frame)
+                return
+            self.assign(node.target, first, frame)
+            self.exec_block(node.body[0].body[:-1], frame)
+            return
         items = self.iterate(it)
         broke = False
         for x in items:
